@@ -18,6 +18,8 @@ import VaxisModel.Lemmas.VxfwBody
 import VaxisModel.Lemmas.VxfwBodyMouse
 import VaxisModel.Lemmas.VxfwBodyFocus
 import VaxisModel.Lemmas.VxfwBodyHover
+import VaxisModel.Lemmas.VxfwBodyX
+import VaxisModel.Lemmas.VxfwBodyRun
 import VaxisModel.Props.C15
 import VaxisModel.Props.C15Err
 
@@ -26,11 +28,13 @@ open VaxisModel.Model VaxisModel.Model.GoSyn VaxisModel.Model.Vxfw VaxisModel.Mo
 open VaxisModel.Model.DynExec (parseBody)
 open VaxisModel.Spec.Routing VaxisModel.Lemmas.Vxfw
 
-/-- The translator recognised every statement and expression of the six dispatcher bodies. -/
+/-- The translator recognised every statement and expression of the eight handler bodies (round 4: also
+    `mouseHandler.update` with its labelled `continue`s and `App.handleCommand` with its type switch). -/
 theorem fully_recognised :
     (fullyRecognised Gen.VxfwBodies.focusHandleEvent && fullyRecognised Gen.VxfwBodies.mouseHandleEvent &&
      fullyRecognised Gen.VxfwBodies.focusWidget && fullyRecognised Gen.VxfwBodies.updatePath &&
-     fullyRecognised Gen.VxfwBodies.mouseExit && fullyRecognised Gen.VxfwBodies.mouseEnter) = true := by decide
+     fullyRecognised Gen.VxfwBodies.mouseExit && fullyRecognised Gen.VxfwBodies.mouseEnter &&
+     fullyRecognised Gen.VxfwBodies.mouseUpdate && fullyRecognised Gen.VxfwBodies.handleCommand) = true := by decide
 
 /-- The regenerated body of `focusHandler.handleEvent` is the one the execution lemmas are about. -/
 theorem body_as_expected : Gen.VxfwBodies.focusHandleEvent = Lemmas.VxfwBodyExpected.focusHandleEvent := by decide +kernel
@@ -167,5 +171,119 @@ example :
         (fun r => (r.1.calls, r.2)) = some (4, false)) ∧
     ((runFocusHandleEvent (parseBody Gen.VxfwBodies.focusHandleEvent) ⟨o, fun w _ ph _ => w = 3 ∧ ph = .target⟩ 3 s0 (.key 1) 5).map
         (fun r => (r.1.calls, r.2)) = some (3, true)) := by decide +kernel
+
+/-! ## Round 4: `updatePath`, `mouseHandler.update`, `App.handleCommand` executed from their bodies; the `Run` loop over
+    the executed bodies; hover balance for it -/
+
+/-- The regenerated bodies of `focusHandler.updatePath`, `mouseHandler.update` and `App.handleCommand` are the ones the
+    execution lemmas are about (fails when vxfw.go changes there). -/
+theorem update_path_body_as_expected : Gen.VxfwBodies.updatePath = Lemmas.VxfwBodyExpected.updatePath := by decide +kernel
+theorem mouse_update_body_as_expected : Gen.VxfwBodies.mouseUpdate = Lemmas.VxfwBodyExpected.mouseUpdate := by decide +kernel
+theorem handle_command_body_as_expected : Gen.VxfwBodies.handleCommand = Lemmas.VxfwBodyExpected.handleCommand := by decide +kernel
+
+/-- **`focusHandler.updatePath`, executed from its regenerated body, IS `eUpdatePath`**: `f.lastFrame = root`, then
+    `if !f.findPath() { _ = f.focusWidget(app, f.root) }` — the path is recomputed from the new frame BEFORE the
+    best-effort refocus, whose error is dropped.  Every oracle, failing-call set, state, frame; `fuel` = the nesting budget
+    of the `handleCommand` calls inside the refocus, so this is `eUpdatePath e (fuel + 1)`. -/
+theorem update_path_body_eq_model (e : EOracle) (fuel : Nat) (s : St) (t : STree) :
+    runUpdatePath (parseBody Gen.VxfwBodies.updatePath) e fuel s t = some (eUpdatePath e (fuel + 1) s t) := by
+  rw [update_path_body_as_expected, Lemmas.VxfwBodyX.parse_up]
+  exact Lemmas.VxfwBodyX.up_exec e fuel s t
+
+/-- **`mouseHandler.update`, executed from its regenerated body, IS `eMouseUpdate`** — the hit-list diff that produces the
+    hover notifications: nothing without a mouse position; `hits` = `hitTest` of the surface if the point is inside it (else
+    empty); the EXIT loop over the OLD hit list tells `MouseLeave` to every hit result that is not (as a whole struct: column,
+    row, widget) among the new ones, in the old order — the inner loop's `continue outer_exit` skips the others —; then the
+    ENTER loop over the NEW hits tells `MouseEnter` to every one not among the old ones (`m.lastHits`, read live: nothing in the
+    loops changes it), in the new order; a failing handler's error is returned at once and the hit list is NOT replaced; else
+    `m.lastHits = hits`.  State (trace, flags, hit list) and returned error, for every oracle, failing-call set, nesting
+    budget, state, surface. -/
+theorem mouse_update_body_eq_model (e : EOracle) (fuel : Nat) (s : St) (t : STree) :
+    runMouseUpdate (parseBody Gen.VxfwBodies.mouseUpdate) e fuel s t = some (eMouseUpdate e fuel s t) := by
+  rw [mouse_update_body_as_expected, Lemmas.VxfwBodyX.parse_mu]
+  exact Lemmas.VxfwBodyX.mu_exec e fuel s t
+
+/-- **`App.handleCommand`, executed from its regenerated body, IS `eHandleCommand`** — the command interpreter: the type
+    switch over the dynamic type of the command (`nil` matches no arm), the two batch arms `for _, c := range cmd {
+    a.handleCommand(c) }` with the RECURSIVE call running the body again (so the pre-order flattening `Cmd.flatten` of the
+    model is what the recursion does, to any nesting depth), one flag assignment per flag command (two for `DebugCmd`),
+    `a.fh.focusWidget(a, cmd)` with its error logged and dropped, one call into vaxis per `other` command.  For every
+    oracle, failing-call set, state, command value; `fuel` = the nesting budget inside `focusWidget`. -/
+theorem handle_command_body_eq_model (e : EOracle) (fuel : Nat) (s : St) (c : Cmd) :
+    runHandleCommand (parseBody Gen.VxfwBodies.handleCommand) e fuel s c = some (eHandleCommand e (fuel + 1) s c) := by
+  rw [handle_command_body_as_expected, Lemmas.VxfwBodyX.parse_hc]
+  exact Lemmas.VxfwBodyX.hc_run e fuel s c
+
+/-- Non-vacuity (`handleCommand`): a batch inside a `[]Command` inside a batch, with a focus command in the middle — the
+    executed body sets the flags, moves the focus (FocusOut, `focused = 2`, FocusIn: 3 entries + 4 effects) and stops
+    nowhere; `nil` elements are skipped. -/
+example :
+    let o : Oracle := ⟨fun _ _ _ _ => .nil, fun _ => false⟩
+    (runHandleCommand (parseBody Gen.VxfwBodies.handleCommand) ⟨o, fun _ _ _ _ => false⟩ 2 (St.init 0)
+        (.batch [.redraw, .nil, .slice [.other 5, .batch [.focus 2, .quit]], .consume])).map
+      (fun s => (s.redraw, s.quit, s.consume, s.focused, s.trace.length)) = some (true, true, true, 2, 7) := by decide +kernel
+
+/-- Non-vacuity (`update`): the pointer moves from widget 1 (old hits 0,1 at other local coordinates) onto widget 3: the
+    executed body sends MouseLeave to 0 and 1 (their hit results differ in the coordinates), then MouseEnter to 0 and 3, and
+    stores the new hit list; with a failing MouseLeave handler it returns the error after the first call and keeps the old
+    list. -/
+example :
+    let o : Oracle := ⟨fun _ _ _ _ => .nil, fun _ => false⟩
+    let t : STree := .node 0 10 10 [(1, 1, 0, .node 1 2 2 []), (5, 5, 0, .node 3 3 3 [])]
+    let s0 : St := { St.init 0 with mouse := some (6, 6), lastHits := [⟨1, 1, 0⟩, ⟨0, 0, 1⟩] }
+    ((runMouseUpdate (parseBody Gen.VxfwBodies.mouseUpdate) ⟨o, fun _ _ _ _ => false⟩ 2 s0 t).map
+        (fun r => (r.1.calls, r.1.lastHits.map (·.w), r.2)) = some (4, [0, 3], false)) ∧
+    ((runMouseUpdate (parseBody Gen.VxfwBodies.mouseUpdate) ⟨o, fun _ ev _ _ => ev = .mouseLeave⟩ 2 s0 t).map
+        (fun r => (r.1.calls, r.1.lastHits.map (·.w), r.2)) = some (1, [0, 1], true)) := by decide +kernel
+
+/-- The regenerated bodies, parsed: what `bRun` executes. -/
+def genBodies : Bodies :=
+  ⟨parseBody Gen.VxfwBodies.focusHandleEvent, parseBody Gen.VxfwBodies.mouseHandleEvent, parseBody Gen.VxfwBodies.mouseUpdate,
+   parseBody Gen.VxfwBodies.mouseExit, parseBody Gen.VxfwBodies.mouseEnter, parseBody Gen.VxfwBodies.updatePath⟩
+
+/-- **The `Run` loop over the EXECUTED bodies is the model's `eRun`**: `bRun` = the event switch and the frame step of
+    `App.Run` (transcribed) calling `focusHandler.handleEvent`, `mouseHandler.handleEvent`, `mouseHandler.update`, `mouseExit`,
+    `mouseEnter`, `focusHandler.updatePath` as interpreted from their regenerated bodies.  Over every history (Init, key, custom,
+    mouse, terminal FocusIn / FocusOut, resize, redraw events, frames with arbitrary new trees), every oracle and failing-call
+    set, nesting budget `fuel + 1`: the final state (whole trace included) and the returned error are those of `eRun`.  So
+    every history theorem of `Props/C15.lean` / `Props/C15Err.lean` speaks about the loop over the executed bodies.  (Inside
+    the bodies `app.handleCommand`, `m.update`, `f.focusWidget` are the model functions, which `handle_command_body_eq_model`,
+    `mouse_update_body_eq_model`, `focus_widget_body_eq_model` identify with their own executed bodies.) -/
+theorem run_bodies_eq_model (e : EOracle) (fuel : Nat) (root : Id) (t0 : STree) (steps : List Step) :
+    bRun genBodies e fuel root t0 steps = some (eRun e (fuel + 1) root t0 steps) := by
+  have hB : genBodies = Lemmas.VxfwBodyRun.expB := by
+    unfold genBodies Lemmas.VxfwBodyRun.expB
+    rw [body_as_expected, mouse_body_as_expected, mouse_update_body_as_expected, hover_bodies_as_expected.1,
+      hover_bodies_as_expected.2, update_path_body_as_expected, Lemmas.VxfwBody.parse_fhe, Lemmas.VxfwBody.parse_mhe,
+      Lemmas.VxfwBodyX.parse_mu, Lemmas.VxfwBody.parse_mx, Lemmas.VxfwBody.parse_me, Lemmas.VxfwBodyX.parse_up]
+  rw [hB]
+  exact Lemmas.VxfwBodyRun.bRun_eq e fuel root t0 steps
+
+/-- **Hover balance for the loop over the executed bodies** (`hover_alternates` restated): over every history of `bRun` with
+    handlers that return no error — mouse events, frames that REMOVE or move hovered widgets (the frame's `update` diffs the old
+    hit list against the new tree), terminal FocusIn (`mouseEnter(root)`) and FocusOut (`mouseExit`), focus changes in between —
+    the MouseEnter / MouseLeave notifications in the trace alternate for every widget starting with MouseEnter, and the
+    widgets currently entered are exactly the widgets of the hit list.  Precondition as for `hover_alternates`: every drawn tree
+    shows a widget at most once under a point. -/
+theorem hover_alternates_bodies (o : Oracle) (fuel : Nat) (root : Id) (t0 : STree) (steps : List Step)
+    (h0 : HitsNodup t0) (hs : ∀ st ∈ steps, StepOk st) :
+    ∃ s' ent, bRun genBodies (e0 o) fuel root t0 steps = some (s', false) ∧
+      hoverRun [] s'.trace = some ent ∧ ∀ w, w ∈ ent ↔ w ∈ s'.lastHits.map Hit.w := by
+  obtain ⟨ent, hr, hm⟩ := C15.hover_alternates o (fuel + 1) root t0 steps h0 hs
+  refine ⟨_, ent, ?_, hr, hm⟩
+  rw [run_bodies_eq_model, C15Err.no_error_agrees]
+
+/-- **… and all closed when the terminal focus leaves, for the executed bodies**: after any such history, the FocusOut arm
+    (`mh.mouse = nil; mh.mouseExit(app)` run from its body) leaves every widget's last hover notification a MouseLeave. -/
+theorem hover_closed_bodies (o : Oracle) (fuel : Nat) (root : Id) (t0 : STree) (steps : List Step)
+    (h0 : HitsNodup t0) (hs : ∀ st ∈ steps, StepOk st) :
+    ∃ s1 s', bRun genBodies (e0 o) fuel root t0 steps = some (s1, false) ∧
+      bRunEvent genBodies (e0 o) fuel s1 .focusOut = some (s', false) ∧ hoverRun [] s'.trace = some [] := by
+  have hc := C15.hover_closed_on_focus_out o (fuel + 1) root t0 steps h0 hs
+  refine ⟨runSteps o (fuel + 1) (runInit o (fuel + 1) root t0) steps, _, ?_, ?_, hc⟩
+  · rw [run_bodies_eq_model, C15Err.no_error_agrees]
+  · show runMouseExit (parseBody Gen.VxfwBodies.mouseExit) (e0 o) (fuel + 1) _ = _
+    rw [mouse_exit_body_eq_model]
+    exact congrArg some (Lemmas.Vxfw.eRunEvent_noerr o (fuel + 1) _ .focusOut)
 
 end VaxisModel.Props.C15Body
